@@ -5,7 +5,7 @@
 use super::c01_env::{self as env, ConnectFail, Env, Tunnel};
 use super::c01_proto::{self as proto, Shake};
 use serde_json::{Value, json};
-use std::net::{Ipv4Addr, SocketAddr};
+use std::net::{IpAddr, Ipv4Addr, SocketAddr};
 use std::sync::atomic::{AtomicBool, AtomicUsize, Ordering};
 use std::sync::{Arc, Mutex};
 use std::time::{Duration, Instant};
@@ -26,10 +26,23 @@ pub enum Entry {
     Socks5Ip,
     Socks5Domain,
     HttpConnect,
+    /// the target listens on [::1] and the remote specification names it as `[::1]:port`
+    TcpRemoteV6,
+    /// the target listens on [::1] and the SOCKS5 request carries ATYP = 4
+    Socks5Ip6,
+    /// the target listens on [::1] and the request line is `CONNECT [::1]:port HTTP/1.1`
+    HttpConnectV6,
 }
 
 impl Entry {
+    /// the entry points of the complete product (targets on 127.0.0.1)
     pub const ALL: [Entry; 7] = [Entry::TcpRemote, Entry::UnixRemote, Entry::Socks4, Entry::Socks4a, Entry::Socks5Ip, Entry::Socks5Domain, Entry::HttpConnect];
+    /// the entry points that can name an IPv6 literal; their target listens on [::1]
+    /// (a small sub-matrix, and only where the IPv6 loopback address exists)
+    pub const V6: [Entry; 3] = [Entry::TcpRemoteV6, Entry::Socks5Ip6, Entry::HttpConnectV6];
+    pub fn v6literal(self) -> bool {
+        matches!(self, Entry::TcpRemoteV6 | Entry::Socks5Ip6 | Entry::HttpConnectV6)
+    }
     pub fn name(self) -> &'static str {
         match self {
             Entry::TcpRemote => "remote-tcp",
@@ -39,6 +52,9 @@ impl Entry {
             Entry::Socks5Ip => "socks5-ip",
             Entry::Socks5Domain => "socks5-domain",
             Entry::HttpConnect => "http-connect",
+            Entry::TcpRemoteV6 => "remote-tcp-v6literal",
+            Entry::Socks5Ip6 => "socks5-ip6-v6literal",
+            Entry::HttpConnectV6 => "http-connect-v6literal",
         }
     }
     pub fn family(self) -> &'static str {
@@ -46,11 +62,21 @@ impl Entry {
             Entry::TcpRemote | Entry::UnixRemote => "remote",
             Entry::Socks4 | Entry::Socks4a | Entry::Socks5Ip | Entry::Socks5Domain => "socks",
             Entry::HttpConnect => "http",
+            Entry::TcpRemoteV6 => "remote-v6literal",
+            Entry::Socks5Ip6 => "socks-v6literal",
+            Entry::HttpConnectV6 => "http-v6literal",
         }
     }
     pub fn parse(s: &str) -> Option<Self> {
-        Self::ALL.into_iter().find(|e| e.name() == s)
+        Self::ALL.into_iter().chain(Self::V6).find(|e| e.name() == s)
     }
+}
+
+/// Does this machine (network namespace) have the IPv6 loopback address? Probed once; where it
+/// does not, the IPv6-literal sub-matrix is skipped (and the evidence says so).
+pub fn ipv6_loopback() -> bool {
+    static PROBE: std::sync::OnceLock<bool> = std::sync::OnceLock::new();
+    *PROBE.get_or_init(|| std::net::TcpListener::bind("[::1]:0").is_ok())
 }
 
 #[derive(Clone, Copy, Debug, PartialEq, Eq, Hash)]
@@ -123,6 +149,7 @@ impl TcpCase {
         json!({
             "kind": "tcp", "entry": self.entry.name(), "c2t_len": self.c2t, "t2c_len": self.t2c,
             "chunking": self.chunk.name(), "close_order": self.order.name(), "connections": self.conc,
+            "target_listens_on": if self.entry.v6literal() { "[::1]" } else { "127.0.0.1" },
             "payload_rule": "payload(len, conn, dir): len 1 -> fixed table byte; else xorshift64* stream seeded by (conn, dir); see c01_tcp.rs::payload",
             "c2t_head_hex": vcommon::report::hex(&payload(self.c2t, 0, 0)[..self.c2t.min(16)]),
             "t2c_head_hex": vcommon::report::hex(&payload(self.t2c, 0, 1)[..self.t2c.min(16)]),
@@ -441,12 +468,15 @@ async fn client_conn(i: usize, case: TcpCase, ep: Arc<EntryPoint>, target: Socke
     let ip = Ipv4Addr::LOCALHOST;
     let port = target.port();
     let shake = match case.entry {
-        Entry::TcpRemote | Entry::UnixRemote => Shake::Granted,
+        Entry::TcpRemote | Entry::UnixRemote | Entry::TcpRemoteV6 => Shake::Granted,
         Entry::Socks4 => proto::socks4_connect(&mut io, ip, port, None).await,
         Entry::Socks4a => proto::socks4_connect(&mut io, ip, port, Some(&domain)).await,
-        Entry::Socks5Ip => proto::socks5_connect(&mut io, ip, port, None).await,
-        Entry::Socks5Domain => proto::socks5_connect(&mut io, ip, port, Some(&domain)).await,
+        Entry::Socks5Ip => proto::socks5_connect(&mut io, IpAddr::V4(ip), port, None).await,
+        Entry::Socks5Domain => proto::socks5_connect(&mut io, IpAddr::V4(ip), port, Some(&domain)).await,
         Entry::HttpConnect => proto::http_connect(&mut io, &format!("{domain}:{port}")).await,
+        // the address the target really listens on ([::1]), as ATYP 4 / as a bracketed literal (RFC 3986 3.2.2, RFC 9110 7.2)
+        Entry::Socks5Ip6 => proto::socks5_connect(&mut io, target.ip(), port, None).await,
+        Entry::HttpConnectV6 => proto::http_connect(&mut io, &format!("[{}]:{port}", target.ip())).await,
     };
     let granted = shake == Shake::Granted;
     {
@@ -492,7 +522,7 @@ pub async fn run_tcp(mode: &Mode<'_>, case: &TcpCase, deadline_s: u64, uniq: u64
         refusing = Some(r);
         a
     } else {
-        let l = match TcpListener::bind("127.0.0.1:0").await {
+        let l = match TcpListener::bind(if case.entry.v6literal() { "[::1]:0" } else { "127.0.0.1:0" }).await {
             Ok(l) => l,
             Err(e) => return machinery(format!("bind target: {e}")),
         };
@@ -500,6 +530,9 @@ pub async fn run_tcp(mode: &Mode<'_>, case: &TcpCase, deadline_s: u64, uniq: u64
         listener = Some(l);
         a
     };
+    if case.entry.v6literal() && refuse {
+        return machinery(format!("{}: not a point of the matrix", case.label()));
+    }
 
     // ---- entry point + subject
     let mut lease = None;
@@ -533,7 +566,8 @@ pub async fn run_tcp(mode: &Mode<'_>, case: &TcpCase, deadline_s: u64, uniq: u64
                     lease = Some(l);
                     let spec = match other {
                         Entry::TcpRemote => format!("127.0.0.1:{lp}:127.0.0.1:{}", target.port()),
-                        Entry::HttpConnect => format!("127.0.0.1:{lp}:http"),
+                        Entry::TcpRemoteV6 => format!("127.0.0.1:{lp}:[{}]:{}", target.ip(), target.port()),
+                        Entry::HttpConnect | Entry::HttpConnectV6 => format!("127.0.0.1:{lp}:http"),
                         _ => format!("127.0.0.1:{lp}:socks"),
                     };
                     (spec, EntryPoint { tcp: Some(SocketAddr::from(([127, 0, 0, 1], lp))), unix: None })
@@ -601,11 +635,35 @@ pub async fn run_tcp(mode: &Mode<'_>, case: &TcpCase, deadline_s: u64, uniq: u64
     let expected = if refuse { n } else { 2 * n };
     let mut got = 0usize;
     let mut timed_out = false;
+    // IPv6-literal sub-matrix: every local connection is over, one of them ended before it had the
+    // target's payload, and the target was never connected to. Nothing that happens later can
+    // repair that, so the scenario ends here instead of waiting for a target that nobody will reach.
+    let mut closed_unreached = false;
+    let over_and_short = |cst: &[Shared]| {
+        let mut short = false;
+        for s in cst {
+            let g = lock(s);
+            let over = g.finished || g.connect_err.is_some() || g.shake.as_ref().is_some_and(|sh| *sh != Shake::Granted);
+            if !over {
+                return false;
+            }
+            short |= g.finished && g.rx_end.is_some() && g.rx.len() < case.t2c;
+        }
+        short
+    };
     while got < expected {
         let now = Instant::now();
         if now >= deadline {
             timed_out = true;
             break;
+        }
+        if case.entry.v6literal() && !refuse && accepted.load(Ordering::SeqCst) < n && over_and_short(&cst) {
+            // a connection that is on its way to the target right now still counts as having reached it
+            tokio::time::sleep(Duration::from_millis(250)).await;
+            if accepted.load(Ordering::SeqCst) < n {
+                closed_unreached = true;
+                break;
+            }
         }
         let slice = (deadline - now).min(Duration::from_millis(20));
         match tokio::time::timeout(slice, done_rx.recv()).await {
@@ -736,7 +794,14 @@ pub async fn run_tcp(mode: &Mode<'_>, case: &TcpCase, deadline_s: u64, uniq: u64
         }
     } else if all_connected {
         let acc = accepted.load(Ordering::SeqCst).min(n);
-        if acc < n {
+        if acc < n && closed_unreached {
+            let ends: Vec<String> = cs.iter().map(|c| format!("received {} of {} bytes then {}, wrote {} of {} bytes{}", c.rx.len(), case.t2c, c.rx_end.as_deref().unwrap_or("-"), c.tx_bytes, case.c2t, c.tx_err.as_ref().map_or_else(String::new, |e| format!(" (write error {e})")))).collect();
+            push(
+                format!("tcp.closed.target-not-reached.{fam}"),
+                format!("the {} entry point granted the request for the target {target} (which listens and accepts), then ended the local connection without the target ever having been connected to ({acc} of {n} connections reached it); local connections: {ends:?}", case.entry.name()),
+                false,
+            );
+        } else if acc < n {
             push(format!("tcp.hang.target-not-reached.{fam}"), format!("only {acc} of {n} connections reached the target within {deadline_s} s"), true);
         } else {
             let sp = spurious.load(Ordering::SeqCst);
